@@ -12,8 +12,8 @@
                                             `C12_innermost_point_names_the_node` (the payload is the innermost point's);
     2. `C12_user_exception_becomes_eval_error_with_cause`;   `C12_pipeline_user_exception` (through `Config.build`'s nesting);
     3. `C12_unsafe_error_is_preserved`, `C12_unsafe_error_without_shortening_is_a_cause`;
-    4. `C12_api_entry_reentrant`, `C12_api_guard_is_thread_local`, `C12_directly_raised_error_gets_callers_context_as_cause`
-       (finding D40: `api_entry` reads `__context__`);
+    4. `C12_api_entry_reentrant`, `C12_api_guard_is_thread_local`, `C12_directly_raised_error_has_no_foreign_cause`,
+       `C12_api_entry_repeatable` (since repo fix D43 `api_entry` reads `__cause__`; before: finding D40);
     5. the switches: `C12_flag_rethrow_off_passes_foreign_exceptions`, `C12_flag_include_off_drops_the_cause`,
        `C12_flag_shorten_off_one_layer_per_point`.
 
@@ -165,39 +165,38 @@ theorem C12_user_exception_becomes_eval_error_with_cause (fl : Flags) (hr : fl.r
   -- the conclusion, as an invariant of everything outside the first point
   let Jr : Exc → Prop := fun x => x.cls = .ay .eval ∧
     (∃ pre, pre ≠ [] ∧ x.causes = pre ++ e.causes ∧ ∀ y ∈ pre, y.cls = .ay .eval) ∧ (fl.shorten = true → x.cause = some e)
-  -- before an active api entry re-creates the error, `__context__` is `__cause__` as well
-  let I : Nat → Exc → Prop := fun k x => (k = 0 ∧ x = e) ∨ (k ≠ 0 ∧ Jr x ∧ x.context = x.cause)
-  let R : Nat → Exc → Prop := fun k x => (k = 0 ∧ x = e) ∨ (k ≠ 0 ∧ Jr x)
+  let I : Nat → Exc → Prop := fun k x => (k = 0 ∧ x = e) ∨ (k ≠ 0 ∧ Jr x)
   have hsub : e.cls.sub .eval = false := by rw [he]; rfl
   have hexc : e.cls.isException = true := by rw [he]; rfl
   have hnay : e.cls.isAy = false := by rw [he]; rfl
-  have hfirst : ∀ s, Jr (wrap fl .eval s e) ∧ (wrap fl .eval s e).context = (wrap fl .eval s e).cause := by
+  have hfirst : ∀ s, Jr (wrap fl .eval s e) := by
     intro s
     rw [wrap_other fl .eval s e hsub hexc, hr, hi]
     simp only [if_true]
-    refine ⟨⟨rfl, ⟨[_], by simp, causes_mkErr_some _ _ _ _ _, ?_⟩, fun _ => rfl⟩, rfl⟩
+    refine ⟨rfl, ⟨[_], by simp, causes_mkErr_some _ _ _ _ _, ?_⟩, fun _ => rfl⟩
     intro y hy
     rw [List.mem_singleton.mp hy]; rfl
-  obtain ⟨x, hx, hI⟩ := around_invariant_guarded fl .eval e I R (Or.inl ⟨rfl, rfl⟩)
+  obtain ⟨x, hx, hI⟩ := around_invariant fl .eval e I (Or.inl ⟨rfl, rfl⟩)
     (by
       intro k s x hI
       refine Or.inr ⟨by omega, ?_⟩
-      rcases hI with ⟨_, hxe⟩ | ⟨_, ⟨hc, ⟨pre, hpre, hch, hall⟩, hsh⟩, hcc⟩
+      rcases hI with ⟨_, hxe⟩ | ⟨_, hc, ⟨pre, hpre, hch, hall⟩, hsh⟩
       · rw [hxe]; exact hfirst s
       · have hs' : x.cls.sub .eval = true := by rw [hc]; rfl
         rw [wrap_sub fl .eval s x hs']
         by_cases hsh' : fl.shorten = true
-        · rw [if_pos hsh']; exact ⟨⟨hc, ⟨pre, hpre, hch, hall⟩, hsh⟩, hcc⟩
+        · rw [if_pos hsh']; exact ⟨hc, ⟨pre, hpre, hch, hall⟩, hsh⟩
         · rw [if_neg hsh']
-          refine ⟨⟨rfl, ⟨mkErr .eval none s (some x) x :: pre, by simp, ?_, ?_⟩, fun h => absurd h hsh'⟩, rfl⟩
+          refine ⟨rfl, ⟨mkErr .eval none s (some x) x :: pre, by simp, ?_, ?_⟩, fun h => absurd h hsh'⟩
           · rw [causes_mkErr_some, hch]; rfl
           · intro y hy
             rcases List.mem_cons.mp hy with h | h
             · rw [h]; rfl
             · exact hall y h)
     (by
+      -- re-creation at the active api entry: same class, same `__cause__`
       intro k x hI _ hs
-      rcases hI with ⟨hk, hxe⟩ | ⟨hk, ⟨hc, ⟨pre, hpre, hch, hall⟩, hsh⟩, hcc⟩
+      rcases hI with ⟨hk, hxe⟩ | ⟨hk, hc, ⟨pre, hpre, hch, hall⟩, hsh⟩
       · rw [hxe, hnay]; exact Or.inl ⟨hk, rfl⟩
       · refine Or.inr ⟨hk, ?_⟩
         have hay : x.cls.isAy = true := by rw [hc]; rfl
@@ -210,7 +209,7 @@ theorem C12_user_exception_becomes_eval_error_with_cause (fl : Flags) (hr : fl.r
           simp only [List.cons_append] at hch
           injection hch with _ htl
           refine ⟨by rw [recreate_cls]; exact hc, ⟨recreate fl x :: pre', by simp, ?_, ?_⟩, ?_⟩
-          · rw [causes_recreate fl hi x hcc, htl]; rfl
+          · rw [causes_recreate fl hi x, htl]; rfl
           · intro z hz
             rcases List.mem_cons.mp hz with h | h
             · rw [h, recreate_cls]; exact hc
@@ -218,20 +217,10 @@ theorem C12_user_exception_becomes_eval_error_with_cause (fl : Flags) (hr : fl.r
           · intro _
             rw [recreate_cause, hi]
             simp only [if_true]
-            rw [hcc]; exact hsh hs)
-    (by
-      intro k s x hR _ hs
-      refine Or.inr ⟨by omega, ?_⟩
-      rcases hR with ⟨_, hxe⟩ | ⟨_, hc, hrest⟩
-      · rw [hxe]; exact (hfirst s).1
-      · have hs' : x.cls.sub .eval = true := by rw [hc]; rfl
-        rw [wrap_sub fl .eval s x hs', hs]
-        exact ⟨hc, hrest⟩)
+            exact hsh hs)
     p (n + 1) hp g
   refine ⟨x, hx, ?_⟩
-  rcases hI with (⟨h, _⟩ | ⟨_, hJ, _⟩) | ⟨_, _, _, (⟨h, _⟩ | ⟨_, hJ⟩)⟩
-  · omega
-  · exact hJ
+  rcases hI with ⟨h, _⟩ | ⟨_, hJ⟩
   · omega
   · exact hJ
 
@@ -373,24 +362,74 @@ example : (runCalls c12AllOn [c12Eval3 c12Zero, c12Eval3 c12Zero] false).map c12
     [(some (.ay .eval, [.ay .eval, .foreign "ZeroDivisionError"], some "a.b"), false),
      (some (.ay .eval, [.ay .eval, .foreign "ZeroDivisionError"], some "a.b"), false)] := by decide +kernel
 
-/- What `api_entry` takes as the reason is `e.__context__`, not `e.__cause__`.  For an error made at a rethrow point that is the
-   wrapped exception.  For an awesomeyaml error that is raised DIRECTLY (the UnsafeError of an `!unsafe` node) it is whatever
-   exception the CALLER happened to be handling when it called the API (Python sets `__context__` implicitly): that unrelated
-   exception becomes the `__cause__` of what the caller gets.  Proved here for every such error and every context; on the code:
-   `try: raise KeyError() / except KeyError: Config.build('a: !unsafe {c: !call:os.getcwd []}', raw_yaml=True)` gives
-   `UnsafeError.__cause__ = KeyError()` (finding D40; the second such call raises AttributeError on the exhausted traceback,
-   which is outside the model). -/
-theorem C12_directly_raised_error_gets_callers_context_as_cause (t : String) (pl : Payload) (caller : Exc) (sup : Bool)
-    (p : Prog) (n : Nat) (hp : Around (.raise (.mk (.ay .unsafeErr) t pl none (some caller) sup)) .eval p n) :
-    ∃ x, run {} (.api p) false = (.error x, false) ∧ x.cls = .ay .unsafeErr ∧ x.pl = pl ∧ x.cause = some caller := by
-  obtain ⟨x, hx, _, _, he⟩ := C12_unsafe_error_is_preserved {} rfl (.mk (.ay .unsafeErr) t pl none (some caller) sup) rfl p n hp true
-  have hxe := he rfl
-  subst hxe
-  exact ⟨_, run_api_active_error {} p rfl rfl _ true hx, rfl, rfl, rfl⟩
+/- "an awesomeyaml error raised directly — not via a rethrow point — inside an api entry reaches the caller with cause = its own
+   explicit cause (none if none), whatever exception the CALLER is handling: the caller's context never becomes the cause"
+   (repo fix D43; before it `api_entry` read `e.__context__`, finding D40).  For every awesomeyaml class `c`, every explicit
+   cause, EVERY `__context__` (what Python sets implicitly when the caller is inside an `except` block), every nesting of api
+   entries and rethrow points of a class `T` the error is an instance of (UnsafeError inside the EvalError points of
+   `evaluate_node`), any guard, `shorten_traceback` and `include_original_exception` on: class, payload and `__cause__` of what
+   the caller gets do not mention the context. -/
+theorem C12_directly_raised_error_has_no_foreign_cause (fl : Flags) (hs : fl.shorten = true) (hi : fl.includeOriginal = true)
+    (c T : AyCls) (hcT : c.sub T = true) (t : String) (pl : Payload) (cause callerCtx : Option Exc) (sup : Bool)
+    (p : Prog) (n : Nat) (hp : Around (.raise (.mk (.ay c) t pl cause callerCtx sup)) T p n) (g : Bool) :
+    ∃ x, run fl (.api p) g = (.error x, g) ∧ x.cls = .ay c ∧ x.pl = pl ∧ x.cause = cause ∧
+      x.causes.map Exc.cls = .ay c :: (match cause with | none => [] | some d => d.causes.map Exc.cls) := by
+  obtain ⟨x, hx, hI⟩ := around_invariant_guarded fl T (.mk (.ay c) t pl cause callerCtx sup)
+    (fun _ x => x = .mk (.ay c) t pl cause callerCtx sup) (fun _ x => x.cls = .ay c ∧ x.pl = pl ∧ x.cause = cause) rfl
+    (by
+      intro k s x hI
+      rw [hI, wrap_sub fl T s _ (by exact hcT), hs]; rfl)
+    (by
+      intro k x hI _ _
+      rw [hI]
+      refine ⟨rfl, rfl, ?_⟩
+      show (recreate fl _).cause = cause
+      rw [recreate_cause, hi]; rfl)
+    (by
+      intro k s x hR _ _
+      have : x.cls.sub T = true := by rw [hR.1]; exact hcT
+      rw [wrap_sub fl T s x this, hs]
+      exact hR)
+    (.api p) n (.api hp) g
+  have hfin : x.cls = .ay c ∧ x.pl = pl ∧ x.cause = cause := by
+    rcases hI with h | ⟨_, _, _, h⟩
+    · rw [h]; exact ⟨rfl, rfl, rfl⟩
+    · exact h
+  refine ⟨x, hx, hfin.1, hfin.2.1, hfin.2.2, ?_⟩
+  rw [causes_eq x, hfin.2.2, List.map_cons, hfin.1]
+  cases cause <;> rfl
 
-example : c12Seen (run {} (.api (c12Eval3 (.mk (.ay .unsafeErr) "" { path := some "a.c" } none
-      (some (.mk (.foreign "KeyError") "what the caller was handling" {} none none false)) false))) false) =
-    (some (.ay .unsafeErr, [.ay .unsafeErr, .foreign "KeyError"], some "a.c"), false) := by decide +kernel
+/-- the UnsafeError of an `!unsafe` node three levels down, raised while the caller handles a KeyError: no cause -/
+def c12Caller : Exc := .mk (.foreign "KeyError") "what the caller was handling" {} none none false
+def c12Direct (ctx : Option Exc) : Exc := .mk (.ay .unsafeErr) "" { path := some "a.c" } none ctx false
+example : c12Seen (run {} (.api (c12Eval3 (c12Direct (some c12Caller)))) false) = (some (.ay .unsafeErr, [.ay .unsafeErr], some "a.c"), false) ∧
+    c12Seen (run {} (.api (c12Eval3 (c12Direct none))) false) = (some (.ay .unsafeErr, [.ay .unsafeErr], some "a.c"), false) := by
+  decide +kernel
+
+/- "calling the same failing api entry any number of times, inside or outside a handler of the caller, gives the same class /
+   cause chain every time: no crash": for every list `ctxs` of what the caller is handling at each call (`none`: outside any
+   handler) — induction over the number of calls — every one of the consecutive calls of the api entry around `build`
+   (any nesting as above around the directly raised error) raises the error of class `c` with the same payload, the same
+   `__cause__` and the same class chain, and leaves the guard as it was. -/
+theorem C12_api_entry_repeatable (fl : Flags) (hs : fl.shorten = true) (hi : fl.includeOriginal = true)
+    (c T : AyCls) (hcT : c.sub T = true) (t : String) (pl : Payload) (cause : Option Exc) (sup : Bool)
+    (build : Exc → Prog) (n : Nat) (hb : ∀ e, Around (.raise e) T (build e) n) (ctxs : List (Option Exc)) (g : Bool) :
+    ∀ r ∈ runCalls fl (ctxs.map (fun ctx => Prog.api (build (.mk (.ay c) t pl cause ctx sup)))) g,
+      ∃ x, r = (.error x, g) ∧ x.cls = .ay c ∧ x.pl = pl ∧ x.cause = cause ∧
+        x.causes.map Exc.cls = .ay c :: (match cause with | none => [] | some d => d.causes.map Exc.cls) := by
+  induction ctxs with
+  | nil => intro r hr; cases hr
+  | cons ctx rest ih =>
+    intro r hr
+    simp only [List.map_cons, runCalls, run_guard] at hr
+    rcases List.mem_cons.mp hr with h | h
+    · rw [h]
+      exact C12_directly_raised_error_has_no_foreign_cause fl hs hi c T hcT t pl cause ctx sup _ n (hb _) g
+    · exact ih r h
+
+/-- outside a handler, then twice inside the caller's `except KeyError:` — three times the same UnsafeError -/
+example : (runCalls {} ([none, some c12Caller, some c12Caller].map (fun ctx => Prog.api (c12Eval3 (c12Direct ctx)))) false).map c12Seen =
+    List.replicate 3 (some (.ay .unsafeErr, [.ay .unsafeErr], some "a.c"), false) := by decide +kernel
 
 /- "an error raised in one thread is reported in that thread with its own context" (the part errors.py contributes): the guard
    is a `threading.local` — a call in thread `t` reads and writes the slot of `t` only; what it raises does not depend on the
